@@ -35,7 +35,7 @@ import (
 
 type M = map[string]any
 
-// scenario is {"cfg":{router,score,flood,px,queue,maxMsg,hosts,files,validator},"acts":[{...},...]}.
+// scenario is {"cfg":{router,score,flood,px,queue,maxMsg,hosts,files,validator,D,Dlo,Dhi,Dscore,Dout,Dlazy,oppTicks,oppPeers,pruneBackoffS},"acts":[{...},...]}.
 // Besides the world alphabet the driver understands, on the driver-owned topic
 // names (never joined through the world): bsub{t}, bcancel{t}, pubbatch{t,ms:[names][,size]}.
 type scenario struct {
@@ -396,6 +396,14 @@ func runScenario(t *testing.T, out *vh.Out, idx int, s scenario, dir string) {
 		cfg := world.Config{Router: router, Score: getb(s.Cfg, "score"), FloodPublish: getb(s.Cfg, "flood"),
 			DoPX: getb(s.Cfg, "px"), QueueSize: geti(s.Cfg, "queue", 0), MaxMsgSize: geti(s.Cfg, "maxMsg", 0),
 			Hosts: geti(s.Cfg, "hosts", 8), KeepPB: true, Retain: 10 * time.Second}
+		// scaled-down gossipsub parameters of the shared harness, degrees overridable per scenario
+		gp := world.SmallParams()
+		gp.D, gp.Dlo, gp.Dhi = geti(s.Cfg, "D", gp.D), geti(s.Cfg, "Dlo", gp.Dlo), geti(s.Cfg, "Dhi", gp.Dhi)
+		gp.Dscore, gp.Dout, gp.Dlazy = geti(s.Cfg, "Dscore", gp.Dscore), geti(s.Cfg, "Dout", gp.Dout), geti(s.Cfg, "Dlazy", gp.Dlazy)
+		gp.OpportunisticGraftTicks = uint64(geti(s.Cfg, "oppTicks", int(gp.OpportunisticGraftTicks)))
+		gp.OpportunisticGraftPeers = geti(s.Cfg, "oppPeers", gp.OpportunisticGraftPeers)
+		gp.PruneBackoff = time.Duration(geti(s.Cfg, "pruneBackoffS", int(gp.PruneBackoff/time.Second))) * time.Second
+		cfg.Params = &gp
 		var tr *tee
 		var jt *pubsub.JSONTracer
 		var pt *pubsub.PBTracer
@@ -430,7 +438,8 @@ func runScenario(t *testing.T, out *vh.Out, idx int, s scenario, dir string) {
 			}))
 		}
 		pl := &pushLog{}
-		reset := M{"validator": validator,"queue": cfg.QueueSize, "maxMsg": cfg.MaxMsgSize, "files": files, "score": cfg.Score,
+		reset := M{"validator": validator, "D": gp.D, "Dlo": gp.Dlo, "Dhi": gp.Dhi, "Dscore": gp.Dscore, "Dout": gp.Dout,
+			"oppTicks": int(gp.OpportunisticGraftTicks),"queue": cfg.QueueSize, "maxMsg": cfg.MaxMsgSize, "files": files, "score": cfg.Score,
 			"flood": cfg.FloodPublish, "px": cfg.DoPX, "push": true}
 		w := world.New(t, out, idx, cfg, reset)
 		// runs after w.Close(): an announce that found a full queue leaves a goroutine sleeping up to 1 s
